@@ -49,6 +49,11 @@ def cases(tier, seed):
             yield {"kind": "single", "t": lt, "records": [rs("j/list", [[lt, "xs"]], ["[%s, %s]" % (a, b)])]}
     for v in alphabet("stringlist", seed):
         yield {"kind": "single", "t": "stringlist", "records": [rs("j/one", [["stringlist", "x"]], [v])]}
+    # list fields extended in place (append) with a plain value of the element kind after the record was made
+    for lt, first, more in (("datetime[]", "dt(2020,1,1,tz=UTC)", "dt(2021,2,3,4,5,6,7,tz=off(5,30))"), ("bytes[]", "b'a'", "b'\\x00\\xff'"), ("string[]", "'a'", "'plain'"),
+                            ("varint[]", "1", "2**70"), ("float[]", "0.5", "1.25"), ("boolean[]", "True", "False")):
+        yield {"kind": "single", "t": lt + ":appended", "records": [dict(rs("j/list", [[lt, "xs"]], ["[%s]" % first]), mutate=[["xs", more]])],
+               "expected_records": [rs("j/list", [[lt, "xs"]], ["[%s, %s]" % (first, more)])]}
     # documents longer than the usual read buffers (64 KiB, 128 KiB)
     for t, v in (("string", "S('x', 65537)"), ("string", "S('x', 131073)"), ("string", "S('\\xe9', 70000)"), ("bytes", "S(b'\\xab', 100000)"), ("string[]", "[S('y', 140000), 'z']"),
                  ("varint", "10**4000"), ("uri", "S('u', 200000)")):
@@ -75,7 +80,10 @@ def cases(tier, seed):
     JB = dict(rs("j/big", [["varint", "n"], ["string", "s"]], ["10**5000", "'refused'"]), xfail=True)
     JO = rs("j/big", [["varint", "n"], ["string", "s"]], ["5", "'fine'"])
     EMPTY = rs("j/empty", [], [], _source="'only-metadata'")  # a record type without fields of its own
-    shapes = {"A": A, "A2": A2, "B": B, "N1": N1, "N2": N2, "N3": N3, "JB": JB, "JO": JO, "EMPTY": EMPTY}
+    # two types of one name whose (name, hash) identifiers coincide, one of them with a bytes field
+    KB1 = rs("j/k", [["string", "abytesb"]], ["'txt'"])
+    KB2 = rs("j/k", [["bytes", "a"], ["string", "b"]], ["b'\\x00\\xff'", "'vb'"])
+    shapes = {"A": A, "A2": A2, "B": B, "N1": N1, "N2": N2, "N3": N3, "JB": JB, "JO": JO, "EMPTY": EMPTY, "KB1": KB1, "KB2": KB2}
     for k in ((1, 2, 3, 4) if tier == "thorough" else (1, 2, 3)):
         for seq in itertools.product(shapes, repeat=k):
             yield {"kind": "seq", "t": "seq", "shape": list(seq), "records": [shapes[s] for s in seq]}
@@ -286,7 +294,8 @@ def run_case(case):
     XFAIL[0] = tuple(i for i, r in enumerate(case["records"]) if r.get("xfail"))
     records_all = records
     records = [r for i, r in enumerate(records_all) if i not in XFAIL[0]]
-    expected = obs_list(records)
+    # (records whose list was extended in place with a plain value are expected back as their conventionally built twin)
+    expected = obs_list([recs.build_record(r) for r in case["expected_records"]] if case.get("expected_records") else records)
     viol = []
     outs = []
     n = 0
